@@ -777,3 +777,21 @@ Definition run_result_init (t : list stm)
       else Some (InitOk (r_seq st) (r_stored st))
   | WErr => None
   end.
+
+(* ---- a cheap normal form: "if a: if b: X" (nothing else in the outer
+   body, no else branches) is "if a and b: X" ---- *)
+Fixpoint collapse (s : stm) : stm :=
+  let go := fix go (l : list stm) : list stm :=
+              match l with [] => [] | x :: r => collapse x :: go r end in
+  match s with
+  | SIf a b =>
+      match go a, go b with
+      | [SIf x []], [] => SIf x []
+      | a', b' => SIf a' b'
+      end
+  | SLoop b => SLoop (go b)
+  | STry b hs o f =>
+      STry (go b) (map (fun h => (fst h, go (snd h))) hs) (go o) (go f)
+  | other => other
+  end.
+Definition collapse_list (l : list stm) : list stm := map collapse l.
